@@ -40,6 +40,10 @@
      matching finished event at the server.  On the play side the Acknowledgements the client owes after the media phase are
      read by the server first (C02_server_absorbs_control_packets), as they are on a real connection.
      C02_publish_media_phase / C02_play_media_phase: the media phase keeps everything the stop needs.
+     C02_publish_session_all_items / C02_play_session_all_items: the same with METADATA items anywhere in the sequence (every
+     StreamMetadata whose frame rate survives f32 -> f64 -> f32 and whose encoder string is valid UTF-8 of at most 65535 bytes):
+     a metadata message always fits (its encoded size is a few hundred bytes plus the encoder string, Amf0Size.v / MetadataFits.v),
+     so C02_publish_metadata_always_delivered / C02_play_metadata_always_delivered have no error alternative.
    - C02_publish_completes_windows / C02_play_completes_windows (AckHeadroom.v): the same two workflows with NO per-call premise: if
      each side's announced acknowledgement window exceeds its outstanding count by a few packets' worth (a packet of these
      exchanges is at most 17 * (|key| + 200) + 16 bytes, SerSizeProofs.v), every call returns exactly the listed packets and
@@ -67,7 +71,7 @@
    at the composed level (their per-session behaviour is C09/C10): the composed model
 *)
 From RML Require Import Model.Base Model.Utf8 Model.Float Model.Amf0 Model.Chunk Model.ChunkSer Model.ChunkDe Model.Messages Model.SessionCommon Model.Server Model.Client
-  Model.Interop Proofs.ChunkSerProofs Proofs.InteropProofs Proofs.SessionPartition Proofs.ClientPartition Proofs.InteropPartition Proofs.MetadataProofs Proofs.InteropMetadata Proofs.Transport Proofs.ServerProofs Proofs.SessionFrame Proofs.SessionTrace Proofs.ClientTrace Proofs.SessionTransport Proofs.ProtocolProofs Proofs.ProtocolFlow Proofs.ProtocolStart Proofs.PlayMetadata Proofs.ProtocolFragments Proofs.AckHeadroom Proofs.SessionScenario Proofs.ConfigProofs Proofs.FloatProofs Proofs.MessageProofs Proofs.ServerProofs.
+  Model.Interop Proofs.ChunkSerProofs Proofs.InteropProofs Proofs.SessionPartition Proofs.ClientPartition Proofs.InteropPartition Proofs.MetadataProofs Proofs.InteropMetadata Proofs.Transport Proofs.ServerProofs Proofs.SessionFrame Proofs.SessionTrace Proofs.ClientTrace Proofs.SessionTransport Proofs.ProtocolProofs Proofs.ProtocolFlow Proofs.ProtocolStart Proofs.PlayMetadata Proofs.ProtocolFragments Proofs.AckHeadroom Proofs.SessionScenario Proofs.MetadataFits Proofs.Amf0Size Proofs.ConfigProofs Proofs.FloatProofs Proofs.MessageProofs Proofs.ServerProofs.
 From Coq Require Import String.
 Local Open Scope N_scope.
 
@@ -610,6 +614,75 @@ Theorem C02_server_notes : forall ser ser' b s m ts sclock f,
   exists s2 r, server_handle_input s b sclock = (s2, ROk r) /\ same_core s s2 /\ Link ser' (sv_de s2) /\ ser_ok (sv_ser s2).
 Proof. exact server_notes. Qed.
 
+Theorem C02_publish_session_all_items : forall c s app key t items k1 k2 k3 k4 k5 k6 k7 km ks1 ks2,
+  Link (cl_ser c) (sv_de s) -> Link (sv_ser s) (cl_de c) -> ser_ok (cl_ser c) -> ser_ok (sv_ser s) ->
+  cl_state c = Connected -> cl_next_tr c < 4294967296 -> sv_next_stream s < 4294967296 ->
+  sv_connected s = true -> sv_app s = Some app -> utf8_valid key = true -> lenN key <= 65000 ->
+  k1 < 4294967296 -> k2 < 4294967296 -> k3 < 4294967296 -> k5 < 4294967296 -> ks1 < 4294967296 ->
+  (forall w, ack_window (sv_ack s) = Some w -> ack_since (sv_ack s) + 2 * (17 * (lenN key + 200) + 16) < w) ->
+  (forall w, ack_window (cl_ack c) = Some w -> ack_since (cl_ack c) + 3 * (17 * (lenN key + 200) + 16) < w) ->
+  Forall pitem_wf items ->
+  exists c1 b1 s1 b2 c2 b3 s2 s3 b4 b5 c3 c4 c5 s4 c6 b6 s5 r,
+    client_request_publishing c key t k1 = (c1, COk [CPacket b1 false]) /\
+    server_handle_input s b1 k2 = (s1, ROk [SPacket b2 false]) /\
+    client_handle_input c1 b2 k3 = (c2, COk [CPacket b3 false]) /\
+    server_handle_input s1 b3 k4 = (s2, ROk [SEvent (EvPublishRequested (sv_next_req s) app key (mode_of_type t))]) /\
+    server_accept s2 (sv_next_req s) k5 = (s3, ROk [SPacket b4 false; SPacket b5 false]) /\
+    client_handle_input c2 b4 k6 = (c3, COk []) /\
+    client_handle_input c3 b5 k7 = (c4, COk [CEvent CPublishAccepted]) /\
+    publish_run3 c4 s3 items km = Some (c5, s4, map (pitem_event app key) items) /\
+    client_stop_publishing c5 ks1 = (c6, COk [CPacket b6 false]) /\ cl_state c6 = Connected /\
+    server_handle_input s4 b6 ks2 = (s5, ROk r) /\ events r = [EvPublishFinished app key].
+Proof. exact publish_session_all_items. Qed.
+
+Theorem C02_play_session_all_items : forall c s app key items k1 k2 k3 k4 k5 k6 t1 t2 t3 t4 t5 km kd ks1 ks2,
+  Link (cl_ser c) (sv_de s) -> Link (sv_ser s) (cl_de c) -> ser_ok (cl_ser c) -> ser_ok (sv_ser s) ->
+  cl_state c = Connected -> cl_next_tr c < 4294967296 -> sv_next_stream s < 4294967296 -> cc_buffer (cl_cfg c) < 4294967296 ->
+  sv_connected s = true -> sv_app s = Some app -> utf8_valid key = true -> lenN key <= 65000 ->
+  k1 < 4294967296 -> k2 < 4294967296 -> k3 < 4294967296 -> k6 < 4294967296 -> km < 4294967296 -> ks1 < 4294967296 ->
+  (forall w, ack_window (sv_ack s) = Some w -> ack_since (sv_ack s) + 3 * (17 * (lenN key + 200) + 16) < w) ->
+  (forall w, ack_window (cl_ack c) = Some w -> ack_since (cl_ack c) + 6 * (17 * (lenN key + 200) + 16) < w) ->
+  Forall pitem_wf items ->
+  exists c1 b1 s1 b2 c2 b3 b4 s2 s3 s4 p1 p2 p3 p4 p5 c3 c4 c5 c6 c7 s5 c8 out s6 c9 b9 s7 r,
+    client_request_playback c key k1 = (c1, COk [CPacket b1 false]) /\
+    server_handle_input s b1 k2 = (s1, ROk [SPacket b2 false]) /\
+    client_handle_input c1 b2 k3 = (c2, COk [CPacket b3 false; CPacket b4 false]) /\
+    server_handle_input s1 b3 k4 = (s2, ROk []) /\
+    server_handle_input s2 b4 k5 = (s3, ROk [SEvent (EvPlayRequested (sv_next_req s) app key LiveOrRecorded None false (sv_next_stream s))]) /\
+    server_accept s3 (sv_next_req s) k6 = (s4, ROk [SPacket p1 false; SPacket p2 false; SPacket p3 false; SPacket p4 false; SPacket p5 false]) /\
+    client_handle_input c2 p1 t1 = (c3, COk [CEvent (CUnhandleableStatus (str "NetStream.Play.Reset"))]) /\
+    client_handle_input c3 p2 t2 = (c4, COk []) /\
+    client_handle_input c4 p3 t3 = (c5, COk [CEvent CPlaybackAccepted]) /\
+    client_handle_input c5 p4 t4 = (c6, COk []) /\
+    client_handle_input c6 p5 t5 = (c7, COk []) /\
+    play_run3 s4 c7 (sv_next_stream s) items km = Some (s5, c8, map pitem_cevent items, out) /\
+    sdeliver s5 out kd = Some s6 /\
+    client_stop_playback c8 ks1 = (c9, COk [CPacket b9 false]) /\ cl_state c9 = Connected /\
+    server_handle_input s6 b9 ks2 = (s7, ROk r) /\ events r = [EvPlayFinished app key].
+Proof. exact play_session_all_items. Qed.
+
+Theorem C02_publish_metadata_always_delivered : forall c s md clock sclock sid app key,
+  Link (cl_ser c) (sv_de s) -> ser_ok (cl_ser c) -> ser_ok (sv_ser s) ->
+  publishing_stream c = Ok sid -> sid < 4294967296 -> clock < 4294967296 -> md_ok md -> enc_ok md ->
+  sv_connected s = true -> publishing_key s sid = Some (app, key) ->
+  exists b c' s' rs,
+    client_publish_metadata c md clock = (c', COk [CPacket b false]) /\
+    server_handle_input s b sclock = (s', ROk rs) /\
+    events rs = [EvMetadata app key md] /\
+    Link (cl_ser c') (sv_de s') /\ ser_ok (cl_ser c') /\ ser_ok (sv_ser s') /\ publishing_stream c' = Ok sid /\
+    sv_connected s' = true /\ publishing_key s' sid = Some (app, key).
+Proof. exact publish_metadata_always_delivered. Qed.
+
+Theorem C02_play_metadata_always_delivered : forall s c sid md clock cclock,
+  Link (sv_ser s) (cl_de c) -> ser_ok (cl_ser c) -> ser_ok (sv_ser s) -> playing_on c sid -> sid < 4294967296 ->
+  clock < 4294967296 -> cclock < 4294967296 -> md_ok md -> enc_ok md ->
+  exists b ser' c' pre,
+    server_send_metadata s sid md clock = (upd_ser s ser', ROk [SPacket b false]) /\
+    client_handle_input c b cclock = (c', COk (pre ++ [CEvent (CMetadata md)])) /\ cevents pre = [] /\
+    Link ser' (cl_de c') /\ ser_ok (cl_ser c') /\ ser_ok ser' /\ playing_on c' sid /\ cl_state c' = cl_state c /\
+    sends (cl_ser c) (cpacket_list pre) (cl_ser c').
+Proof. exact play_metadata_out. Qed.
+
 Example C02_scenario_publish :
   filter is_media_or_lifecycle (server_events_of (ex_run ex_publish_ops)) =
   [ EvConnectionRequested 0 (str "live");
@@ -655,6 +728,10 @@ Print Assumptions C02_connect_ready.
 Print Assumptions C02_server_receives_chunk_size.
 Print Assumptions C02_client_receives_chunk_size.
 Print Assumptions C02_connect_completes_decided.
+Print Assumptions C02_publish_session_all_items.
+Print Assumptions C02_play_session_all_items.
+Print Assumptions C02_publish_metadata_always_delivered.
+Print Assumptions C02_play_metadata_always_delivered.
 Print Assumptions C02_publish_session.
 Print Assumptions C02_play_session.
 Print Assumptions C02_play_media_phase.
